@@ -1,6 +1,8 @@
 package keeper
 
 import (
+	"math"
+
 	sdk "github.com/cosmos/cosmos-sdk/types"
 )
 
@@ -9,5 +11,11 @@ import (
 func (k *Keeper) ResetGasMeterAndConsumeGas(ctx sdk.Context, gasUsed uint64) {
 	// reset the gas count
 	ctx.GasMeter().RefundGas(ctx.GasMeter().GasConsumed(), "reset the gas count")
+	if gasUsed == math.MaxUint64 && ctx.GasMeter().Limit() == math.MaxUint64 {
+		// This is the limit of an infinite gas meter, the message is not executed as a transaction
+		// (eg: executed by the gov module at the end of the block).
+		// Consuming it would make any later gas consumption overflow and panic, which halts the chain.
+		return
+	}
 	ctx.GasMeter().ConsumeGas(gasUsed, "apply evm transaction")
 }
